@@ -9,6 +9,7 @@ import (
 	"gverif/engine/args"
 	"gverif/engine/asmx"
 	"gverif/engine/config"
+	"gverif/engine/constfold"
 	"gverif/engine/constx"
 	"gverif/engine/decode"
 	"gverif/engine/dspx"
@@ -333,9 +334,14 @@ func init() {
 
 func init() {
 	properties["C08"] = &property{
-		explanation: "Decides the build-configuration clauses of C08 statically: CONFIG.build/.api — every package with tag- or arch-selected files (discovered by scanning //go:build lines; thorough: every package) loads and type-checks under {default, noasm, safe, bounds, tomita, debug} x {amd64, arm64, 386} and exports the same API in each, so the assembly, pure-Go and safe builds are interchangeable at the type level (the test suite compiles one configuration); TWIN.r3 — the safe and unsafe 3x3 builders of spatial/r3 (Eye, Skew, Mul, Rotation.Mat) store the identical expression to every element; STRIDE on the pure-Go kernels of internal/asm under default and noasm; PARAMUSE — every parameter of the kernels and of floats/cmplxs is read (a length or increment that is accepted but never consulted is the footprint of a loop bounded by len(x) instead of n). ASM.window/.units on the assembly text (per-iteration access windows; byte/element units of start offsets — found and repaired the amd64 Ger kernels' negative-increment handling, which made the default build disagree with noasm). SIB.guards — each float32/complex64 kernel with a Go body exits early (NaN, Inf, zero, empty) under the same conditions as its float64/complex128 sibling; STRIDE.extent on the kernels (start offset vs loop bound); ASM.tail. Does NOT decide that assembly or a noasm loop equals the scalar definition, nor search/ordering helpers, norms or NaN handling (value-level).",
+		explanation: "Decides the build-configuration clauses of C08 statically: CONFIG.build/.api — every package with tag- or arch-selected files (discovered by scanning //go:build lines; thorough: every package) loads and type-checks under {default, noasm, safe, bounds, tomita, debug} x {amd64, arm64, 386} and exports the same API in each, so the assembly, pure-Go and safe builds are interchangeable at the type level (the test suite compiles one configuration); TWIN.r3 — the safe and unsafe 3x3 builders of spatial/r3 (Eye, Skew, Mul, Rotation.Mat) store the identical expression to every element; STRIDE on the pure-Go kernels of internal/asm under default and noasm; PARAMUSE — every parameter of the kernels and of floats/cmplxs is read (a length or increment that is accepted but never consulted is the footprint of a loop bounded by len(x) instead of n). ASM.window/.units on the assembly text (per-iteration access windows; byte/element units of start offsets — found and repaired the amd64 Ger kernels' negative-increment handling, which made the default build disagree with noasm). SIB.guards — each float32/complex64 kernel with a Go body exits early (NaN, Inf, zero, empty) under the same conditions as its float64/complex128 sibling; STRIDE.extent on the kernels (start offset vs loop bound); ASM.tail. Does NOT decide that assembly or a noasm loop equals the scalar definition, nor search/ordering helpers, norms or NaN handling (value-level). CONSTFOLD.underflow — no constant floating-point subexpression with a non-zero exact value underflows to zero or to a subnormal when Go converts it to the type it is used at (the scaled accumulation of the 2-norm is written (x*c)*c so that the scaling constants are never multiplied together; reassociating them makes the term vanish silently).",
 		assumptions: commonAssumptions,
 		run: func(tier string, res *core.Result) {
+			for _, c := range []core.Config{{}, {Tags: "noasm"}} {
+				cf := constfold.Run(c, core.Pkgs("./internal/asm/...", "./floats/...", "./cmplxs/...", "./lapack/gonum", "./blas/gonum"))
+				cf.Floor("constant_float_subexpressions", 20)
+				res.Merge(cf)
+			}
 			pk, counts, err := config.TaggedPackages()
 			if err != nil {
 				res.Brokenf("scan: %v", err)
@@ -677,6 +683,8 @@ func dump(argv []string) {
 		res = decode.RunErrDrop(def, core.Pkgs(argv[1:]...))
 	case "idindex":
 		res = idindex.Run(def, core.Pkgs(argv[1:]...))
+	case "constfold":
+		res = constfold.Run(def, core.Pkgs(argv[1:]...))
 	case "global":
 		res = globalx.Run(def, core.Pkgs(argv[1:]...), globalx.Options{})
 	case "fallback":
